@@ -206,12 +206,83 @@ def requestor_scenario(phase, cut):
                 pass
 
 
+def tls_scenario(kind):
+    """pynetdicom accepts TLS connections; a raw TCP peer connects and then stalls before / part-way through the TLS
+    handshake (which `AssociationServer.get_request` performs on the server's accept thread).
+    kind: "silent" | "partial-record".  Oracle inputs: did the server drop the stalled connection, could a well-behaved
+    TLS client associate afterwards, did `shutdown()` return - all within the bound."""
+    import os
+    import ssl
+
+    from harness import common, e2e
+    from pynetdicom import AE
+    from pynetdicom.sop_class import Verification
+
+    e2e.quiet()
+    certs = os.path.join(common.REPO, "pynetdicom", "tests", "cert_files")
+    sctx = ssl.SSLContext(ssl.PROTOCOL_TLS_SERVER)
+    sctx.load_cert_chain(os.path.join(certs, "server.crt"), os.path.join(certs, "server.key"))
+    ae = AE()
+    ae.add_supported_context(Verification)
+    ae.acse_timeout = ae.dimse_timeout = ae.network_timeout = T
+    srv = ae.start_server(("127.0.0.1", 0), block=False, ssl_context=sctx)
+    port = srv.socket.getsockname()[1]
+    bound = 3 * T + 1.5
+    out = {"role": "acceptor-tls"}
+    s = socket.create_connection(("127.0.0.1", port))
+    done = threading.Event()
+    try:
+        if kind == "partial-record":
+            s.sendall(b"\x16\x03\x01\x02")  # the first 4 bytes of a TLS handshake record header
+        t0 = time.monotonic()
+        s.settimeout(bound)
+        try:
+            out["stalled_conn_dropped"] = s.recv(16) == b""
+        except socket.timeout:
+            out["stalled_conn_dropped"] = False
+        except OSError:
+            out["stalled_conn_dropped"] = True  # reset
+        out["drop_took"] = time.monotonic() - t0
+        # a well-behaved TLS client must be served
+        cctx = ssl.SSLContext(ssl.PROTOCOL_TLS_CLIENT)
+        cctx.check_hostname = False
+        cctx.verify_mode = ssl.CERT_NONE
+        box = {}
+
+        def good():
+            cl = AE()
+            cl.add_requested_context(Verification)
+            cl.acse_timeout = cl.dimse_timeout = cl.network_timeout = cl.connection_timeout = 2.0
+            a = cl.associate("127.0.0.1", port, tls_args=(cctx, None))
+            box["established"] = a.is_established
+            if a.is_established:
+                a.release()
+
+        th = threading.Thread(target=good, daemon=True)
+        t1 = time.monotonic()
+        th.start()
+        th.join(bound + 3.0)
+        out["good_client_served"] = bool(box.get("established"))
+        out["good_client_took"] = time.monotonic() - t1
+    finally:
+        try:
+            s.close()
+        except OSError:
+            pass
+        st = threading.Thread(target=lambda: (srv.shutdown(), done.set()), daemon=True)
+        st.start()
+        out["shutdown_returned"] = done.wait(bound + 1.0)
+    return out
+
+
 def _job(args):
     box = {}
 
     def body():
         try:
-            if args[0] == "acc":
+            if args[0] == "tls":
+                box["r"] = tls_scenario(args[1])
+            elif args[0] == "acc":
                 box["r"] = acceptor_scenario(*args[1:])
             else:
                 box["r"] = requestor_scenario(*args[1:])
@@ -238,6 +309,7 @@ def scenarios(ctx):
     sc += [("acc", "pdata", c, 0) for c in pd_cuts]
     sc += [("acc", "release", c, 0) for c in (1, 5, 9)]
     sc += [("acc", "pdata", len(B["echo_rq"]) - 1, 0.05), ("acc", "rq", 40, 0.05)]  # dribble: 1 byte / 50 ms
+    sc += [("tls", "silent"), ("tls", "partial-record")]
     sc += [("req", "silent", 0), ("req", "echo-silent", 0), ("req", "release-silent", 0)]
     ac_cuts = [1, 6, 7, 40, len(B["ac"]) - 1] if ctx.quick else list(range(1, len(B["ac"]), 3))
     sc += [("req", "ac", c) for c in ac_cuts]
@@ -279,6 +351,17 @@ def run(ctx):
     bound = 3 * T + 1.5
     for job, r in zip(jobs, results):
         case = ["stall", *job]
+        if job[0] == "tls":
+            ctx.case(case, nontrivial=True, kind=f"tls-handshake:{job[1]}")
+            if "harness_error" in r or r.get("hang"):
+                ctx.diff(case, r, "n/a", "scenario harness failed")
+            elif not (r["stalled_conn_dropped"] and r["good_client_served"] and r["shutdown_returned"]):
+                ctx.fail(
+                    f"blocked-past-timeouts:acceptor:tls-handshake:{job[1]}",
+                    f"TLS server, peer stalls in the handshake ({job[1]}): stalled connection dropped={r['stalled_conn_dropped']} "
+                    f"(after {r['drop_took']:.1f} s), well-behaved client served={r['good_client_served']}, shutdown() returned={r['shutdown_returned']} "
+                    f"(bound {bound:.1f} s)", case)
+            continue
         dribble = job[0] == "acc" and job[3] > 0
         ctx.case(case, nontrivial=job[1] in ("rq", "pdata", "release", "ac", "echo-partial"), kind=f"{job[0]}:{job[1]}" + (":dribble" if dribble else ""))
         if "harness_error" in r:
